@@ -28,6 +28,7 @@ import (
 
 type provRunner struct {
 	lastEvidence string
+	lastMisb     string
 	t        *Trace
 	w        *World
 	prev     map[string]map[string]string // consumer id -> field -> value
